@@ -171,6 +171,50 @@ class _Taint:
                                         changed = True
 
 
+def _safe_join_by_evaluation(ctx: Ctx, sj):
+    """([(base, name, got, want)], number of classes) from evaluating the sanitiser with models of the os.path functions it calls -- once
+    with the POSIX path algebra, once with the Windows one -- or None when it uses something the evaluator does not model."""
+    import ntpath
+    import posixpath
+
+    from sa.engine.absinterp import Evaluator, Raised
+
+    names = ["", "a", "a/b.txt", "./a", "a/./b", "a/../b", "..", "../y", "a/../../y", "../x.bak/evil", "../x/inside", "/abs", "/tmp/x/in", "\\abs", "C:\\dir\\f", "C:f", "//host/share/f", "a//b", "a/", "...", ".hidden",
+             "a\\b", "..\\y", "a\\..\\..\\y"]
+    bad, n_cases = [], 0
+    for pm, cwd, bases in ((posixpath, "/cwd", ["/tmp/x", "/tmp/x/", "out", "/tmp/x.d"]), (ntpath, "C:\\cwd", ["C:\\tmp\\x", "C:\\tmp\\x\\", "out"])):  # never a root: a fresh temporary directory
+        sep = pm.sep
+
+        def abspath(p, pm=pm, cwd=cwd):
+            return pm.normpath(pm.join(cwd, p))
+
+        ext = {"os.path.abspath": abspath, "os.path.join": pm.join, "os.path.splitdrive": pm.splitdrive, "os.path.isabs": pm.isabs, "os.path.normpath": pm.normpath, "os.path.realpath": abspath}
+        for b in bases:
+            root = abspath(b)
+            for nme in names:
+                n_cases += 1
+                if not nme:
+                    want = ("value", b)
+                elif pm.splitdrive(nme)[0] or pm.isabs(nme) or nme.startswith(("\\", "/")):
+                    want = ("raise", None)  # a drive, an absolute name, a leading separator of either convention
+                else:
+                    t = abspath(pm.join(root, nme))
+                    want = ("value", t) if t == root or t.startswith(root.rstrip(sep) + sep) else ("raise", None)
+                try:
+                    ev = Evaluator(ctx.p, ctx.folder, externals=ext)
+                    ev.sep = sep
+                    got = ("value", ev.call(sj, [b, nme]))
+                except Raised:
+                    got = ("raise", None)
+                except AnalysisError:
+                    return None
+                except Exception:  # noqa: BLE001 -- a model function met an argument it has no answer for
+                    return None
+                if got != want:
+                    bad.append((b, nme, "an exception" if got[0] == "raise" else repr(got[1]), "a rejection" if want[0] == "raise" else repr(want[1])))
+    return bad, n_cases
+
+
 def rule_path(ctx: Ctx) -> RuleReport:
     rep = RuleReport("C09-PATH", "member names reach file-system calls only through _safe_join")
     tn = _Taint(ctx)
@@ -266,8 +310,17 @@ def rule_path(ctx: Ctx) -> RuleReport:
             return n
 
     r = compare_function(ast.fix_missing_locations(_Sep().visit(copy.deepcopy(sj.node))), tmpl)
+    sem = None if rewritten or r == "equal" else _safe_join_by_evaluation(ctx, sj)
     if rewritten:
         pass
+    elif sem is not None:
+        # another spelling than the confirmed one: decided by evaluating the function over the partition of (directory, member name) pairs
+        # its own operations induce, against the containment semantics written down from the property
+        bad, n_cases = sem
+        if not bad:
+            rep.ok({"_safe_join": f"evaluated over {n_cases} (directory, member name) classes: returns the directory or a path below it, rejects absolute, drive and escaping names, rejects nothing else"})
+        for (base, rel, got, want) in bad[:3]:
+            rep.fail(Finding("C09-PATH", SZ, SANITISER, f"_safe_join({base!r}, {rel!r}) -> {got}", f"for the extraction directory {base!r} and the member name {rel!r} the sanitiser gives {got}; containment requires {want}", line=sj.node.lineno))
     elif r == "equal":
         rep.ok({"_safe_join": "empty -> base; drive -> reject; absolute / leading separator -> reject; abspath must stay under base + os.sep"})
     elif r == "leaves":
